@@ -91,6 +91,7 @@ class Gen(object):
         self.branch_ids = {}
         self.alts_total = 0
         self.covered = set()
+        self.unsupported = set()
         self._wcache = {}
         self._index(self.tree)
 
@@ -106,6 +107,12 @@ class Gen(object):
             elif op in (sre_c.MAX_REPEAT, sre_c.MIN_REPEAT):
                 self.alts_total += 2      # "minimum count" and "more than minimum" as two coverage tags
                 self._index(av[2])
+            elif op is sre_c.GROUPREF_EXISTS:
+                for side in (av[1], av[2]):
+                    if side is not None:
+                        self._index(side)
+            elif op in (sre_c.ASSERT, sre_c.ASSERT_NOT):
+                self._index(av[1])
 
     def _weight(self, sub):
         """Rough size of a sub-language: alternatives weigh in so deep families are not starved."""
@@ -117,6 +124,8 @@ class Gen(object):
                 w += self._weight(av[3]) - 1
             elif op in (sre_c.MAX_REPEAT, sre_c.MIN_REPEAT):
                 w += self._weight(av[2])
+            elif op is sre_c.GROUPREF_EXISTS:
+                w += sum(self._weight(x) for x in (av[1], av[2]) if x is not None)
         return min(w, 40)
 
     def _weights(self, alts):
@@ -175,8 +184,17 @@ class Gen(object):
             elif op is sre_c.CATEGORY:
                 ms = cat_members(av)
                 out.append(ms[draw(len(ms))])
+            elif op is sre_c.GROUPREF_EXISTS:
+                # (?(n)yes|no): which side applies depends on the enclosing pattern's group numbering; generate
+                # either side - membership is always decided by the compiled patterns, never by this generator
+                yes, no = av[1], av[2]
+                side = yes if (draw(2) or no is None) else no
+                if side is not None:
+                    self._gen(side, draw, out, long_digits)
+            elif op in (sre_c.ASSERT, sre_c.ASSERT_NOT, sre_c.GROUPREF):
+                self.unsupported.add(str(op))        # look-arounds / back-references: nothing emitted
             else:
-                raise NotImplementedError('regex node %r' % (op,))
+                self.unsupported.add(str(op))
 
     def coverage(self):
         return len(self.covered), self.alts_total
@@ -211,8 +229,16 @@ def class_nodes(patterns):
                 walk(av[2])
             elif op is sre_c.AT:
                 pass
+            elif op is sre_c.GROUPREF_EXISTS:
+                for side in (av[1], av[2]):
+                    if side is not None:
+                        walk(side)
+            elif op in (sre_c.ASSERT, sre_c.ASSERT_NOT):
+                walk(av[1])
+            elif op is sre_c.NOT_LITERAL:
+                nodes.append(('lit', av))
             else:
-                raise NotImplementedError(op)
+                pass        # back-references, ANY ...: no character class to partition on
     for p in patterns:
         walk(sre_parse.parse(p.pattern, p.flags))
     # de-duplicate
